@@ -78,6 +78,23 @@ Theorem name_record_sort_idempotent : forall keys, sort_keys (sort_keys keys) = 
 Proof. exact sort_keys_idempotent. Qed.
 Print Assumptions name_record_sort_idempotent.
 
+(* the table directory: whatever order the tables are added to the builder in, the file lists them in one order, and a
+   font that passes the correspondence predicate has exactly that order *)
+Theorem table_directory_ignores_insertion_order : forall tags tags',
+  Permutation tags tags' -> sort_tags tags = sort_tags tags'.
+Proof. exact sort_tags_order_independent. Qed.
+Print Assumptions table_directory_ignores_insertion_order.
+
+Theorem checked_table_directory_is_canonical : forall tags, dir_order_ok tags = true ->
+  forall tags', Permutation tags tags' -> sort_tags tags' = tags.
+Proof. exact dir_order_ok_canonical. Qed.
+Print Assumptions checked_table_directory_is_canonical.
+
+Example dir_order_nonvacuous :
+  dir_order_ok [1196643650; 1196445523; 1330851634; 1668112752]%N = false
+  /\ dir_order_ok [1196445523; 1196643650; 1330851634; 1668112752]%N = true.
+Proof. split; vm_compute; reflexivity. Qed.
+
 (* the same for any collection sorted by a total order on the way out (kerning pairs, mark classes, ...) *)
 Theorem sorting_by_a_total_order_erases_arrival_order : forall (A : Type) (leb : A -> A -> bool),
   (forall a b, leb a b = true \/ leb b a = true) ->
